@@ -184,6 +184,29 @@ def neighbour_history(rng, hid, with_serde=False, base=None):
     return {"id": hid, "rx": [round(rx[0] * 1e6), round(rx[1] * 1e6)], "range_m": RANGES_M[0], "steps": out}
 
 
+def tie_histories(rng, count):
+    """aircraft whose even/odd reports sit on a rounding tie of a zone index (the pairing must pick the zone the standard's
+    floor(x + 1/2) picks), heard by a receiver close to where the pair decodes: one short history per pair"""
+    import pair_checks
+    ties = [x for x in pair_checks.inputs(random.Random(rng.getrandbits(32)), "quick") if x["tag"] == "tie"]
+    rng.shuffle(ties)
+    out = []
+    for i, t in enumerate(ties):
+        if len(out) >= count:
+            break
+        first, second = t["first"], t["second"]
+        e, o = (first, second) if first[0] == 0 else (second, first)
+        pos = pair_checks.decode_ref((e[1], e[2]), (o[1], o[2]), second[0] == 1)
+        if pos is None or abs(pos[0]) > 85:
+            continue
+        a = rng.randrange(1, 1 << 24)
+        steps = [frame_step(f_pos(rng, a, 0, 0, first[0], 12000, raw=(first[1], first[2]))),
+                 frame_step(f_pos(rng, a, 0, 0, second[0], 12000, raw=(second[1], second[2]))),
+                 frame_step(f_ident(rng, a, "TIE%d" % i))]
+        out.append({"id": f"tie{i}", "rx": [round(pos[0] * 1e6), round(pos[1] * 1e6)], "range_m": 300000, "steps": steps})
+    return out
+
+
 def threshold_history(rng, hid):
     """flights along a meridian or the equator, where the great-circle distance is linear in the angle: both sides
     of the 100 km jump limit and of the range limit within metres"""
@@ -399,6 +422,7 @@ def run(prop, tier, seed, rep, std=True):
         hists.append(threshold_history(rng, f"t{i}"))
     for i in range(4 if tier == "quick" else 60):
         hists.append(neighbour_history(rng, f"n{i}"))
+    hists += tie_histories(rng, 60 if tier == "quick" else 600)
     groups = record(hx, hists)
     events = [e for g in groups for e in g]
     verdicts, st, tr = core.validate_events("Trace_Tracker", events, prop, shards=core.MAX_JVMS,
